@@ -87,16 +87,31 @@ async fn handle_connection(
             // handler set its own; no response query buffer either way.
             let echo = crate::message::response_echo_query(&resp, view.query);
             if let Some(dur) = write_timeout {
-                timeout(dur, write_view_response(&mut writer, &resp, echo))
-                    .await
-                    .ok();
-                timeout(dur, writer.flush()).await.ok();
+                // A write that timed out or failed may have put part of a frame
+                // on the wire: the connection must end here. Carrying on would
+                // append the next response behind a torn frame and the peer
+                // could never re-synchronise.
+                match timeout(dur, write_view_response(&mut writer, &resp, echo)).await {
+                    Ok(result) => result?,
+                    Err(_) => return Err(write_timed_out(dur)),
+                }
+                match timeout(dur, writer.flush()).await {
+                    Ok(result) => result?,
+                    Err(_) => return Err(write_timed_out(dur)),
+                }
             } else {
                 write_view_response(&mut writer, &resp, echo).await?;
                 writer.flush().await?;
             }
         }
     }
+}
+
+fn write_timed_out(dur: Duration) -> RepeError {
+    RepeError::Io(std::io::Error::new(
+        std::io::ErrorKind::TimedOut,
+        format!("response write timed out after {}ms", dur.as_millis()),
+    ))
 }
 
 /// Write a query-less response framed with an externally supplied (borrowed)
